@@ -400,8 +400,41 @@ func (x *Exec) specIndex(base, idx Val, env *Env) Val {
 	return x.specLoad(env, p)
 }
 
-func tdiv(a, b string) string { return sx("tdiv", a, b) }
-func tmod(a, b string) string { return sx("tmod", a, b) }
+// Arithmetic with two symbolic operands goes through named functions (mulS, fdivS, fmodS, tdivS,
+// tmodS) that are defined as the real operations in the full script variant and left
+// uninterpreted in the variants that hide nonlinear definitions.
+func symbolicOperand(s string) bool { return !isLit(s) && !isNegLit(s) }
+
+func mulT(a, b string) string {
+	if symbolicOperand(a) && symbolicOperand(b) {
+		return sx("mulS", a, b)
+	}
+	return sx("*", a, b)
+}
+func tdiv(a, b string) string {
+	if symbolicOperand(b) {
+		return sx("tdivS", a, b)
+	}
+	return sx("tdiv", a, b)
+}
+func tmod(a, b string) string {
+	if symbolicOperand(b) {
+		return sx("tmodS", a, b)
+	}
+	return sx("tmod", a, b)
+}
+func fdivT(a, b string) string {
+	if symbolicOperand(b) {
+		return sx("fdivS", a, b)
+	}
+	return sx("div", a, b)
+}
+func fmodT(a, b string) string {
+	if symbolicOperand(b) {
+		return sx("fmodS", a, b)
+	}
+	return sx("mod", a, b)
+}
 
 func (x *Exec) evalBinary(e *Expr, env *Env) Val {
 	op := e.Name
@@ -461,15 +494,15 @@ func (x *Exec) evalBinary(e *Expr, env *Env) Val {
 		case "-":
 			return specInt(sx("-", a.T, b.T))
 		case "*":
-			return specInt(sx("*", a.T, b.T))
+			return specInt(mulT(a.T, b.T))
 		case "/":
 			return specInt(tdiv(a.T, b.T))
 		case "%":
 			return specInt(tmod(a.T, b.T))
 		case "fdiv":
-			return specInt(sx("div", a.T, b.T))
+			return specInt(fdivT(a.T, b.T))
 		case "fmod":
-			return specInt(sx("mod", a.T, b.T))
+			return specInt(fmodT(a.T, b.T))
 		}
 	case "<", "<=", ">", ">=":
 		if isF(a) && (a.K != KReal || isF(b)) || isF(b) && b.K != KReal {
@@ -764,6 +797,10 @@ func (x *Exec) evalCall(e *Expr, env *Env) Val {
 		}
 		op := map[string]string{"fpeq": "fp.eq", "fplt": "fp.lt", "fpgt": "fp.gt", "fple": "fp.leq", "fpge": "fp.geq"}[e.Name]
 		return specBool(sx(op, fpTerm(as[0], w), fpTerm(as[1], w)))
+	case "mention":
+		// mention(e): true; places the term e in the obligation so that ground definitions unfold at it
+		a := args()[0]
+		return specBool(sx("=", x.termOf(a), x.termOf(a)))
 	case "fpconst":
 		a := args()[0]
 		return Val{K: KFP, T: fpTerm(a, 64)}
